@@ -516,6 +516,30 @@ def chain_check(ctx):
                     rec.violation("C15:or-operand:alternatives-swapped-changes-the-answer", query=q1, swapped=q2,
                                   annotation=str(objs2[k]), answer=r1[k], answer_swapped=r2[k])
     rec.outcome("or-operands")
+    # one atom k times: '&&' matches via distinct tags, so the chain matches exactly when k tags match the atom
+    # (annotations with repeated tags allowed: the counting is what is asked, not whether the annotation validates)
+    pool_names = ["Red", "Red", "Event", "Sensory-event", "Blue"]
+    for size in (1, 2, 3, 4):
+        for combo in itertools.combinations_with_replacement(range(len(pool_names)), size):
+            names = [pool_names[i] for i in combo]
+            for text in (", ".join(names), "(" + ", ".join(names) + ")"):
+                hs = env.HedString(text, env.schema)
+                for atom, hits in (("red", names.count("Red")), ("event", names.count("Event") + names.count("Sensory-event")),
+                                   ('"event"', names.count("Event")), ("sens*", names.count("Sensory-event"))):
+                    for k in (2, 3, 4):
+                        q = " && ".join([atom] * k)
+                        rec.n("evaluations")
+                        rec.n("transitions")
+                        rec.n("distinct_nontrivial")
+                        try:
+                            got = bool(env.search(q, hs))
+                        except Exception as e:
+                            rec.violation("C15:chain:raises:" + type(e).__name__, query=q, error=repr(e)[:200])
+                            continue
+                        if got != (hits >= k):
+                            rec.violation(f"C15:chain:same-atom-{k}-times-does-not-count-distinct-tags", query=q, annotation=text,
+                                          tags_matching_the_atom=hits, got=got)
+    rec.outcome("distinct-tags")
 
 
 def service_check(ctx):
@@ -573,6 +597,30 @@ def service_check(ctx):
     _, _, issues = query_service.get_query_handlers(["(red", "blue"], None)
     if not issues:
         rec.violation("C15:service:bad-query-not-reported", query="(red")
+    # a rejected query keeps its place: the handler at position i belongs to query i
+    for batch in (["(red", "blue", "event"], ["blue", "red)", "event"], ["[[red", "(blue", "sensory-event"]):
+        rec.n("evaluations", len(batch))
+        try:
+            hs_, names_, _ = query_service.get_query_handlers(batch, None)
+        except Exception as e:
+            rec.violation("C15:service:get_query_handlers-raises:" + type(e).__name__, queries=batch, error=repr(e)[:200])
+            continue
+        ok = len(hs_) == len(batch)
+        for i, q in enumerate(batch):
+            if not ok:
+                break
+            try:
+                env.compile(q)
+                good = True
+            except Exception:
+                good = False
+            if good != (hs_[i] is not None):
+                ok = False
+            elif good and [bool(hs_[i].search(o)) for o in objs] != [env.search(q, o) for o in objs]:
+                ok = False
+        if not ok:
+            rec.violation("C15:service:handlers-not-aligned-with-their-queries", queries=batch,
+                          handlers=[None if h is None else "handler" for h in hs_])
 
 
 def run(ctx):
